@@ -1800,6 +1800,16 @@ namespace gch
         return p;
       }
 
+      // Raw pointers to other (memcpyable) types, which occur as the source of a byte copy.
+      template <typename U>
+      static constexpr
+      U *
+      to_address (U *p) noexcept
+      {
+        static_assert (! std::is_function<U>::value, "U is a function pointer.");
+        return p;
+      }
+
       template <typename Pointer,
         typename std::enable_if<has_ptr_traits_to_address<Pointer>::value>::type * = nullptr>
       static constexpr
